@@ -102,7 +102,7 @@ def model(tier, rep):
             return script
         last = script[-1]
         if last["op"] in ("ctor_move_small", "assign_move_small"):
-            return script + [{"op": "call", "o": "f", "x": x0}, {"op": "set_small", "o": "f", "x": x0}]
+            return script + [{"op": "set_small", "o": "f", "x": x0}]
         if last["op"] in ("ctor_move", "assign_move"):
             return script + [{"op": "assign_nullptr", "o": last["x"]["src"], "x": x0}]
         return script
